@@ -389,7 +389,7 @@ impl Prop for C08 {
          packets; Unreal 2 rules / players lists) x fragment boundaries (k = 2 at every boundary, k = 3..6 at even field edges, \
          thorough also +-1). The virtual network holds the set of in-flight datagrams; at every receive any of them may arrive \
          next: ALL k! delivery orders are enumerated for k = 2..6 (no sampling), and on top of every order for k <= 4 (and of the \
-         in-order delivery for k = 5, 6) every single-fragment duplication at every position. Oracle (differential): every \
+         in-order delivery for k = 5, 6) every single-fragment duplication at every position. An execution with more than 24 deliveries in one query (7 are possible) is a violation and is not expanded; cap 50000 executions per case (a few thousand are needed), reported if hit. Oracle (differential): every \
          order yields exactly the in-order result; with a duplicate the result is an error or the in-order result. \
          distinct_nontrivial = distinct (outcome class, wire-log shape) pairs"
             .into()
